@@ -1148,7 +1148,7 @@ def gen_strobj_case(r, idx):
         ids = sorted(size)
         c = r.below(18)
         if c < 5 or not ids:
-            if k >= 3:
+            if len(size) >= 3:
                 continue
             kind = r.below(7)
             if kind == 0:
@@ -1195,6 +1195,10 @@ def gen_strobj_case(r, idx):
                 o = r.pick(ids); lines.append("Z %d swap %d" % (t, o)); size[t], size[o] = size[o], size[t]
             elif c == 16 and k < 3:
                 lines.append("Z %d copy %d" % (k, t)); size[k] = size[t]; t = k; k += 1
+            elif c == 17 and r.chance(1, 2):
+                o = r.pick(ids); lines.append("Z %d assign %d" % (t, o)); size[t] = size[o]
+            elif c == 17 and k < 6:
+                lines.append("Z %d move %d" % (k, t)); size[k] = size[t]; del size[t]; t = k; k += 1
             else:
                 continue
         for i in sorted(size):
@@ -1292,7 +1296,7 @@ def gen_canvas_alias_case(r, idx):
     for _ in range(r.rng(2, 8)):
         c = r.below(8)
         ids = sorted(dims)
-        if c == 0 and k < 3:
+        if c == 0 and len(ids) < 3:
             src = r.pick(ids)
             lines.append("K %d copy %d" % (k, src))
             dims[k] = dims[src]
@@ -1312,6 +1316,18 @@ def gen_canvas_alias_case(r, idx):
                 lines.append("K %d heldset %d %s" % (t, r.below(3), el(wf_glyph(r), wf_attr(r))))
             else:
                 continue
+        elif c == 5 and r.chance(1, 2):
+            t, o = r.pick(ids), r.pick(ids)
+            lines.append("K %d assign %d" % (t, o))
+            dims[t] = dims[o]
+            held[t] = False
+        elif c == 5 and k < 6 and len(ids) > 0:
+            t = r.pick(ids)
+            lines.append("K %d move %d" % (k, t))
+            dims[k] = dims[t]
+            del dims[t]
+            held[t] = False
+            k += 1
         else:
             t = r.pick(ids)
             tw, th = dims[t]
